@@ -126,6 +126,50 @@ def check(rep, tier, seed):
                      observed={"rc": rc, "stdout": so.decode(errors="replace")[:100]}, expected=str(float(mv)),
                      detail="sfs stat differs from the proved model's value by more than 1e-9 relative")
 
+    # (a') several statistics in one invocation: the row is the single-statistic outputs in the order requested, each at its
+    # own precision when a precision list is given; -H names them in that order; -d changes only the delimiter
+    from common import run_cli_many
+    from common import text_spectrum as _ts
+    NAMES = {"d-fu-li": "d_fu_li", "d-tajima": "d_tajima", "f2": "f2", "f3": "f3", "f4": "f4", "fst": "fst", "king": "king", "pi": "pi", "pi-xy": "pi_xy",
+             "r0": "r0", "r1": "r1", "s": "segregating_sites", "sum": "sum", "theta": "theta"}
+    groups = {1: ["d-fu-li", "d-tajima", "pi", "s", "sum", "theta"], 2: ["f2", "fst", "pi-xy", "s", "sum"], 3: ["f3", "s", "sum"], 4: ["f4", "s", "sum"]}
+    mjobs, mmeta = [], []
+    for _ in range(30 if tier == "quick" else 300):
+        d = rng.choice([1, 1, 2, 2, 3, 4])
+        sh = [rng.randrange(3, 7) for _ in range(d)]
+        pool = list(groups[d])
+        if d == 2 and rng.random() < 0.4:
+            sh = [3, 3]; pool += ["king", "r0", "r1"]
+        E = 1
+        for n in sh:
+            E *= n
+        data = [str(rng.randrange(1, 60)) for _ in range(E)]
+        k = rng.randrange(2, len(pool) + 1)
+        req = [rng.choice(pool) for _ in range(k)] if rng.random() < 0.3 else rng.sample(pool, k)     # repeats are allowed too
+        precs = [rng.randrange(0, 13) for _ in req] if rng.random() < 0.5 else [rng.randrange(0, 13)] * len(req)
+        delim = rng.choice([",", ";", "\t", " "])
+        txt = _ts(sh, data)
+        argv = ["stat", "-s", ",".join(req), "-p", ",".join(map(str, precs)) if len(set(precs)) > 1 else str(precs[0]), "-H"] + (["-d", delim] if delim != "," else [])
+        mjobs.append((argv, txt))
+        for st, p_ in zip(req, precs):
+            mjobs.append((["stat", "-s", st, "-p", str(p_)], txt))
+        mmeta.append((argv, txt, req, delim))
+    mres = run_cli_many(mjobs)
+    pos = 0
+    for argv, txt, req, delim in mmeta:
+        multi = mres[pos]; singles = mres[pos + 1:pos + 1 + len(req)]; pos += 1 + len(req)
+        rep.count("stat-multi", " ".join(argv), True)
+        if any(r[0] != 0 for r in singles):
+            want_ok = False
+        else:
+            want_ok = True
+            want = (delim.join(NAMES[x] for x in req) + "\n" + delim.join(r[1].decode().strip() for r in singles) + "\n").encode()
+        if (want_ok and (multi[0] != 0 or multi[1] != want)) or (not want_ok and multi[0] == 0):
+            rep.fail(kind="property-oracle", cls="stat:multi", case=" ".join(argv), argv=["sfs"] + argv, stdin=txt.decode(),
+                     observed={"rc": multi[0], "stdout": multi[1].decode(errors="replace")[:300]},
+                     expected=(want.decode()[:300] if want_ok else "error (one of the statistics is not defined for this shape)"),
+                     detail="several statistics in one invocation must print the single-statistic values in the order requested, with -H their names")
+
     # (b) end to end against the definitions on genotypes
     e2e = []
     for k in range(30 if tier == "quick" else 300):
